@@ -364,7 +364,8 @@ PROPS["C13"] = dict(
     ],
     require=["operations-checked", "op:document-move", "op:document-swap", "op:Parse(valid)", "op:Parse(invalid)", "op:ParseOnDemand",
              "copy-independence-checks", "ledger-quiescent-checks", "destruction-at-random-step", "op:CreateMap", "op:CopyFrom",
-             "handover(Swap/move)-then-destroy-former-holder", "repeated-applications(2..4 texts)"],
+             "handover(Swap/move)-then-destroy-former-holder", "repeated-applications(2..4 texts)",
+             "lazy-merge-on-ledger-allocator", "lazy-merge:escaped-keys"],
     assumptions=["the ledger sees allocator traffic only; the parser's node stack and write buffers use malloc directly and are covered by ASan/LSan",
                  "ParseSchema histories run in the schema harness (second run spec) with only the memory oracles reporting; merge semantics are C19"],
 )
